@@ -621,3 +621,91 @@ Proof.
     - rewrite forallb_forall in Hd. exact (Hd kv Hkv). }
   intros x y Hx Hy E. apply join_inj; auto.
 Qed.
+
+(* ====================================================================== *)
+(* 5. the extension is taken from the last path component only              *)
+(* ====================================================================== *)
+Local Open Scope string_scope.
+
+Lemma ext_scan_app a : forall st b, ext_scan st (a ++ b) = ext_scan (ext_scan st a) b.
+Proof. induction a as [|c a IH]; intros st b; cbn [append ext_scan]; [reflexivity|apply IH]. Qed.
+
+Lemma append_snoc e c r : (e ++ String c "") ++ r = e ++ String c r.
+Proof. induction e as [|d e IH]; cbn [append]; [reflexivity|]. rewrite IH. reflexivity. Qed.
+
+Lemma app_assoc_s a b c : (a ++ b) ++ c = a ++ b ++ c.
+Proof. induction a as [|x a IH]; cbn [append]; [reflexivity|]. rewrite IH. reflexivity. Qed.
+
+Lemma append_nil_r s : s ++ "" = s.
+Proof. induction s as [|c s IH]; cbn [append]; [reflexivity|]. rewrite IH. reflexivity. Qed.
+
+Lemma ext_scan_plain s : forall b o, has_slash s = false -> has_dot s = false ->
+  ext_scan (b, o) s
+  = (if String.eqb s "" then b else true, match o with Some e => Some (e ++ s) | None => None end).
+Proof.
+  induction s as [|c s IH]; intros b o Hs Hd.
+  - cbn [ext_scan String.eqb]. destruct o; [rewrite append_nil_r|]; reflexivity.
+  - cbn [has_slash] in Hs. cbn [has_dot] in Hd. apply orb_false_iff in Hs. apply orb_false_iff in Hd.
+    destruct Hs as [Hc1 Hs]. destruct Hd as [Hc2 Hd].
+    cbn [ext_scan]. unfold ext_step. rewrite Hc1, Hc2. cbn [fst snd].
+    rewrite (IH _ _ Hs Hd). cbn [String.eqb].
+    destruct (String.eqb s ""); destruct o; rewrite ?append_snoc; reflexivity.
+Qed.
+
+Lemma plain_parts s : plain s = true -> s <> "" /\ has_slash s = false /\ has_dot s = false.
+Proof.
+  unfold plain. intros H. apply andb_true_iff in H. destruct H as [H H3]. apply andb_true_iff in H.
+  destruct H as [H1 H2]. apply negb_true_iff in H1, H2, H3. repeat split; try assumption.
+  apply String.eqb_neq. exact H1.
+Qed.
+
+Lemma ext_step_dot b o : ext_step (b, o) "."%char = (b, if b then Some "" else o).
+Proof. reflexivity. Qed.
+Lemma ext_step_slash st : ext_step st "/"%char = (false, None).
+Proof. reflexivity. Qed.
+
+Lemma scan_component st dir rest : ext_scan st (dir ++ "/" ++ rest) = ext_scan (false, None) rest.
+Proof. rewrite ext_scan_app. cbn [append ext_scan]. rewrite ext_step_slash. reflexivity. Qed.
+
+Lemma scan_stem stem : plain stem = true -> ext_scan (false, None) stem = (true, None).
+Proof.
+  intros H. destruct (plain_parts stem H) as (Hne & Hs & Hd). rewrite (ext_scan_plain stem _ _ Hs Hd).
+  apply String.eqb_neq in Hne. rewrite Hne. reflexivity.
+Qed.
+
+Lemma scan_stem_ext stem e : plain stem = true -> plain e = true ->
+  ext_scan (false, None) (stem ++ "." ++ e) = (true, Some e).
+Proof.
+  intros H He. rewrite ext_scan_app, (scan_stem stem H). cbn [append ext_scan]. rewrite ext_step_dot.
+  destruct (plain_parts e He) as (Hne & Hs & Hd). rewrite (ext_scan_plain e _ _ Hs Hd).
+  apply String.eqb_neq in Hne. rewrite Hne. reflexivity.
+Qed.
+
+(* whatever the directory part looks like - dots included *)
+Theorem path_ext_spec (dir stem e : string) : plain stem = true -> plain e = true ->
+  path_ext (dir ++ "/" ++ stem ++ "." ++ e) = e /\ path_ext (dir ++ "/" ++ stem) = ""
+  /\ path_ext (stem ++ "." ++ e) = e /\ path_ext stem = "".
+Proof.
+  intros H He. unfold path_ext.
+  rewrite !scan_component, (scan_stem_ext stem e H He), (scan_stem stem H). repeat split; reflexivity.
+Qed.
+
+Definition writer_of (e : string) : writer := if String.eqb e "json" then WJson else WHdf5.
+
+Theorem extension_paths (dir stem e : string) : plain stem = true ->
+  e = "json" \/ e = "hdf5" \/ e = "h5" ->
+  let target := dir ++ "/" ++ stem in
+  choose_writer_p target (Some e) = Ok (writer_of e, target ++ "." ++ e)
+  /\ choose_writer_p (target ++ "." ++ e) None = Ok (writer_of e, target ++ "." ++ e)
+  /\ choose_writer_p (target ++ "." ++ e) (Some e) = Ok (writer_of e, target ++ "." ++ e)
+  /\ choose_writer_p target None = Err.
+Proof.
+  intros H He target.
+  assert (Pe : plain e = true) by (destruct He as [E|[E|E]]; subst e; reflexivity).
+  destruct (path_ext_spec dir stem e H Pe) as (A1 & A2 & _).
+  assert (E1 : target ++ "." ++ e = dir ++ "/" ++ stem ++ "." ++ e).
+  { unfold target. rewrite !app_assoc_s. reflexivity. }
+  unfold choose_writer_p. rewrite E1, A1. fold target in A2. rewrite A2. rewrite <- E1.
+  destruct He as [E|[E|E]]; subst e; cbn; repeat split; reflexivity.
+Qed.
+Local Close Scope string_scope.
